@@ -26,12 +26,22 @@ def tr(d):
     return [(t.trs, t.desc) for t in d.tracts]
 
 
+CULL_ONLY = ['the', 'of', 'in', 'and', 'all of', 'all in']     # cleanup_desc's connector words (a block consisting of nothing else)
+
+
 def check_segment(rep, text):
     a = pytrs.PLSSDesc(text)
     b = pytrs.PLSSDesc(text, config='segment')
     if tr(a) != tr(b):
+        # listed finding, keyed narrowly: the ONLY difference is that a description which consists of one connector word
+        # (after the chunk-wise clean-up also removed the section's colon) comes out empty under segment
+        ta, tb = tr(a), tr(b)
+        tag = None
+        if len(ta) == len(tb) and all(x[0] == y[0] for x, y in zip(ta, tb)) and \
+                all(x[1] == y[1] or (y[1] == '' and x[1].strip().lower() in ('the', 'of', 'in', 'and', 'all')) for x, y in zip(ta, tb)):
+            tag = 'C20-segment-cull-word'
         rep.violation('failing-input', {'text': text, 'mode': 'segment', 'why': 'segment changes the tracts of a single-layout description',
-                                        'default': tr(a)[:8], 'segment': tr(b)[:8]})
+                                        'default': tr(a)[:8], 'segment': tr(b)[:8]}, tag=tag)
 
 
 def backref_desc(r):
@@ -160,6 +170,13 @@ def run(ctx):
         if n > 1:
             rep.nontrivial((text, 'segment'))
         items.append(descs.corr_item(text, cfg='segment'))
+        if i % 5 == 0:
+            # blocks that consist of a connector word only (known finding C20-segment-cull-word; anything else is new)
+            w1, w2 = r.choice(CULL_ONLY + ['NE/4']), r.choice(CULL_ONLY + ['W/2'])
+            tc = (f'T{r.range(1, 160)}N-R{r.range(1, 99)}W Sec {r.range(1, 36)}: {w1}{r.choice(["; ", ", ", chr(10)])}'
+                  f'T{r.range(1, 160)}N-R{r.range(1, 99)}W Sec {r.range(1, 36)}: {w2}')
+            safely(rep, 'segment (connector-word blocks)', check_segment, tc)
+            rep.count()
         for _ in range(2):
             tb, eb = backref_desc(r)
             if safely(rep, 'segment (back references)', check_segment_backref, tb, eb):
@@ -182,6 +199,8 @@ def run(ctx):
         rep.nontrivial((t4, 'sec_within'))
         items.append(descs.corr_item(t4, cfg='sec_within'))
         rep.sample({'segment': text[:120], 'no_colons': t3[:120], 'sec_within': t4}, cap=3)
+    # known finding, always exhibited on the implementation
+    safely(rep, 'segment (connector-word blocks)', check_segment, 'T154N-R97W Sec 1: the; T155N-R97W Sec 2: NE/4')
     ctx.compare(items)
 
 
